@@ -398,7 +398,9 @@ class Run:
             if len(st) > 1:
                 key.append(tuple(model.abstract_entry(e) for e in st))
         key.sort()
-        caps = sorted(tuple(model.abstract_entry(c) for c in h.caps) for h in self.handles)
+        # the *set* of abstracted captured configurations of the live handles (not the multiset: a run
+        # that creates the same kind of inverse ten times is not in ten different states)
+        caps = sorted({model.abstract_entry(c) for h in self.handles for c in h.caps})
         self.states.add((self.world, tuple(key), tuple(caps)))
 
     def on_line(self, actor: Actor, code, line: int) -> None:
